@@ -7,19 +7,19 @@ IDS = {"build": 1, "a": 2, "b": 3}
 IDN = {v: k for k, v in IDS.items()}
 
 
-def walk(node):
-    """public tree -> the nested record the specification uses"""
+def walk(node, scale=1):
+    """public tree -> the nested record the specification uses (scale: the specification's unit in units of the data handed to the partitioner)"""
     if node is None:          # an internal node with a missing child: rendered as an impossible leaf so that the comparison fails
         return {"leaf": True, "cnt": [-7, -7, -7]}
     c = node.num_samples_in_compared_subtrees
     cnt = [int(c[k]) if k in c else -1 for k in ("build", "a", "b")]
     if node.axis is None:
         return {"leaf": True, "cnt": cnt}
-    m2 = 2 * float(node.midpoint_at_axis)
+    m2 = 2 * scale * float(node.midpoint_at_axis)
     if m2 != round(m2):
         raise AssertionError("driver expects integer data (midpoint %r)" % node.midpoint_at_axis)
     return {"leaf": False, "cnt": cnt, "axis": int(node.axis), "mid2": int(round(m2)),
-            "lo": walk(node.left), "hi": walk(node.right)}
+            "lo": walk(node.left, scale), "hi": walk(node.right, scale)}
 
 
 def plotly_rows(part, id1, id2, maxd=0, named=False, d=0):
@@ -81,19 +81,30 @@ def session(cfgp, script):
     from menelaus.partitioners import KDQTreePartitioner
     part = KDQTreePartitioner(count_ubound=cfgp["ub"], cutpoint_proportion_lbound=cfgp["lbnum"] / cfgp["lbden"])
     ev = []
+    # "halves" (only with cutpoint_proportion_lbound = 0, where the tree is exactly scale-equivariant): the partitioner receives every coordinate
+    # divided by two - a build sample on the even lattice then arrives as an INTEGER-typed array, later samples carry fractions.  Where a point
+    # belongs is a matter of its value, whatever the type of the sample the tree was built from
+    hv = 2 if cfgp.get("halves") else 1
+
+    def arr(rows, width):
+        a = np.array(rows, dtype=float).reshape(-1, width)
+        if hv == 1:
+            return a
+        a = a / 2
+        return a.astype(np.int64) if a.size and bool(np.all(a == np.round(a))) else a
     for s in script:
         op = s[0]
         if op == "build":
-            part.build(np.array(s[1], dtype=float))
-            ev.append({"op": "build", "data": s[1], "tree": walk(part.node), "counts": _counts(part.leaf_counts("build"))})
+            part.build(arr(s[1], len(s[1][0])))
+            ev.append({"op": "build", "data": s[1], "tree": walk(part.node, hv), "counts": _counts(part.leaf_counts("build"))})
         elif op == "fill":
-            d = np.array(s[1], dtype=float).reshape(-1, len(script[0][1][0]))
+            d = arr(s[1], len(script[0][1][0]))
             part.fill(d, tree_id=IDN[s[2]], reset=s[3])
-            ev.append({"op": "fill", "data": s[1], "id": s[2], "reset": bool(s[3]), "tree": walk(part.node),
+            ev.append({"op": "fill", "data": s[1], "id": s[2], "reset": bool(s[3]), "tree": walk(part.node, hv),
                        "counts": _counts(part.leaf_counts(IDN[s[2]]))})
         elif op == "reset":
             part.reset(value=s[1], tree_id=IDN[s[2]])
-            ev.append({"op": "reset", "value": int(s[1]), "id": s[2], "tree": walk(part.node)})
+            ev.append({"op": "reset", "value": int(s[1]), "id": s[2], "tree": walk(part.node, hv)})
         elif op == "kl":
             ev.append({"op": "kl", "id1": s[1], "id2": s[2], "kl": num(part.kl_distance(IDN[s[1]], IDN[s[2]]))})
         elif op == "plotly":
